@@ -156,7 +156,8 @@ def run_driver(harness, name, tier, seed, outdir, shards=1, per=60000, timeout=3
                 os.remove(intent)
                 first = [l for l in err.split('\n') if l.startswith(('fatal error', 'runtime:', 'panic:', 'signal'))][:2]
                 sums.append({'crash': True, 'req': req, 'how': '; '.join(first) or 'exit status %d' % p.returncode,
-                             'driver': name, 'shard': i, 'events': 0, 'chunks': 0, 'ops': {}})
+                             'driver': name, 'shard': i, 'events': 0, 'chunks': 0, 'ops': {},
+                             'files': sorted(glob.glob(os.path.join(outdir, '%s-s%02d-*.ndjson' % (name, i))))})
                 log('[drive] %s shard %d: the process died inside a call (%s)' % (name, i, sums[-1]['how']))
                 continue
             raise HarnessError('driver %s failed rc=%d:\n%s' % (name, p.returncode, tail(out + err)))
@@ -326,7 +327,7 @@ def replay_events(harness, events, scratch, module='Trace', any_event=False):
     src = os.path.join(scratch, 'replay-%s.json' % rid)
     out = os.path.join(scratch, 'replay-%s.ndjson' % rid)
     json.dump({'events': events}, open(src, 'w'))
-    p = subprocess.run([harness, 'replay', src, out], capture_output=True, text=True, timeout=600)
+    p = subprocess.run([harness, 'replay', src, out], capture_output=True, text=True, timeout=600, env=dict(os.environ, GOGC='off'))
     if p.returncode != 0:
         raise HarnessError('replay failed: ' + tail(p.stdout + p.stderr))
     r = validate_chunk(out, scratch, module)
@@ -340,7 +341,10 @@ def replay_crash(harness, events, scratch):
     """Re-executes events in a fresh process; True if that process dies abnormally again."""
     src = os.path.join(scratch, 'crash-%s.json' % hashlib.sha1(json.dumps(events, sort_keys=True).encode()).hexdigest()[:12])
     json.dump({'events': events}, open(src, 'w'))
-    p = subprocess.run([harness, 'replay', src, src + '.out'], capture_output=True, text=True, timeout=1800)
+    # no garbage collection while re-executing: what the library keeps in pools then stays where the
+    # recorded process had it (a collection between two calls is a matter of timing, not of the calls)
+    p = subprocess.run([harness, 'replay', src, src + '.out'], capture_output=True, text=True, timeout=1800,
+                       env=dict(os.environ, GOGC='off'))
     if p.returncode == 0 or p.stderr.startswith('HARNESS-ERROR'):
         return False, ''
     first = [l for l in p.stderr.split('\n') if l.startswith(('fatal error', 'runtime:', 'panic:', 'signal'))][:2]
